@@ -1117,11 +1117,16 @@ def _rule_n_written_text(repo: Repo, rep: Report, tm, lm) -> None:
     for t in tokens:
         fr = t.last
         ok = fr.lit is not None and _own_text(fr.mod, fr.fn, t.at, t.expr, fr.lit)
-        shown = norm(t.expr)
+        # the token as a computation: how a constant regular expression it applies is kept (pattern text in place, a precompiled
+        # module-level constant, `re.sub` or `sub`) is not part of it
+        def _text(e_: ast.AST, _mod=fr.mod) -> str:
+            return norm(H.functional_regex_calls(repo, _mod, e_))
+
+        shown = _text(t.expr)
         one = None
         if isinstance(t.expr, ast.Name):
             rv = H.reaching_values(fr.mod, fr.fn, t.at, t.expr.id)
-            shown = " | ".join("<augmented>" if v is None else norm(v) for v in rv) or shown
+            shown = " | ".join("<augmented>" if v is None else _text(v) for v in rv) or shown
             one = rv[0] if len(rv) == 1 and rv[0] is not None else None
         # the tests the token went through (part of the construct: a tested and an untested token differ)
         tested = []
